@@ -8,6 +8,7 @@ import CGV.Gen.Funcs
 import CGV.Model.Sample
 import CGV.Model.ReadCG
 import CGV.Model.Write
+import CGV.Model.Strip
 open Lean CGV CGV.J
 
 def openOf' (j : Json) : Except String OpenSt :=
@@ -77,6 +78,17 @@ def handle (j : Json) : Except String Json := do
     match (if d == "base" then parseBase t else parseFrag t) with
     | .ok a => pure (Json.mkObj [("ok", attrsTo a)])
     | .error e => pure (errTo e)
+  | "strip" =>
+    let t ← ofStr (← j.getObjVal? "s")
+    match strip t with
+    | .ok o => pure (Json.mkObj [("ok", Json.mkObj [("smile", str o.smile),
+        ("bonding", Json.arr (o.bonding.map fun (k, ds) => Json.arr #[nat k, Json.arr (ds.map str).toArray]).toArray),
+        ("ez", Json.arr (o.ez.map fun (k, c) => Json.arr #[nat k, str [c]]).toArray),
+        ("attrs", Json.arr (o.attrs.map fun (k, a) => Json.arr #[nat k, attrsTo a]).toArray)])])
+    | .error e => pure (errTo e)
+  | "splitfrags" =>
+    let t ← ofStr (← j.getObjVal? "s")
+    pure (Json.mkObj [("ok", Json.arr ((splitFragments t).map fun (n, x) => Json.arr #[str n, str x]).toArray)])
   | "write" =>
     let smiles ← boolOf (← j.getObjVal? "smiles")
     let nodes ← listOf (fun x => do
